@@ -132,6 +132,31 @@ def build_archive(recipe) -> Built:
     return b
 
 
+def build_from_ref(refcase) -> Built:
+    """Archive produced by the independent reference writer from a C06-style {members, layout} recipe."""
+    from props import c06
+    from ref7z import writer as W
+
+    b = Built()
+    b.error = None
+    b.rejected = False
+    logical = c06.materialize_members(refcase)
+    try:
+        b.image = W.build(logical, dict(refcase["layout"]))
+        b.password = refcase["layout"].get("password")
+        b.ref = ref7z.read(b.image, b.password)
+        if ref7z.enforced_issues(b.ref) or b.ref.undecoded:
+            b.error = RuntimeError("reference writer self-check failed")
+    except Exception as e:
+        b.image = None
+        b.error = e
+        b.ref = None
+        b.password = None
+    b.model = [rw.Mem(m.name, m.data, m.kind, m.mtime, m.attributes) for m in b.ref.members] if b.ref is not None else []
+    b.nfolders = len(b.ref.main["folders"]) if b.ref is not None and b.ref.main and b.ref.main["folders"] else 0
+    return b
+
+
 # ---------------------------------------------------------------------------------------------
 # model predictions
 # ---------------------------------------------------------------------------------------------
